@@ -145,6 +145,9 @@ pub struct Workload {
     /// compute the sequential baseline on an independently built copy of the shared objects, so
     /// that the objects under test are used concurrently for the very first time
     pub fresh: bool,
+    /// with `fresh`: the concurrent phase runs BEFORE the sequential baseline, so names and
+    /// sources of this workload meet their first use in the process concurrently
+    pub cold: bool,
 }
 
 impl Workload {
@@ -160,6 +163,7 @@ impl Workload {
             .with("values", Json::Arr(self.values.iter().map(value_to_json).collect()))
             .with("extra_tree_sources", Json::arr_of_str(self.extra_tree_sources.iter().cloned()))
             .with("fresh", Json::Bool(self.fresh))
+            .with("cold", Json::Bool(self.cold))
             .with(
                 "threads",
                 Json::Arr(
@@ -205,6 +209,7 @@ impl Workload {
                 .map(|a| a.iter().filter_map(|s| s.as_str()).map(|s| s.to_string()).collect())
                 .unwrap_or_default(),
             fresh: j.get("fresh").and_then(|b| b.as_bool()).unwrap_or(false),
+            cold: j.get("cold").and_then(|b| b.as_bool()).unwrap_or(false),
         })
     }
 
@@ -678,13 +683,39 @@ pub struct RunOutcome {
 }
 
 /// One complete simulation of a workload under a scheduler configuration.
+static CANARY_PARSED_BEFORE: std::sync::atomic::AtomicBool = std::sync::atomic::AtomicBool::new(false);
+const CANARY_SOURCE: &str = "1 + a * 2";
+
 pub fn run(w: &Workload, cfg: sched::SimConfig) -> Result<RunOutcome, String> {
+    // the same small source is built on the main thread before every simulation: if that stops
+    // working after it worked (trees built here are dropped on other threads all the time), the
+    // builder depends on what other threads did
+    match build_operator_tree::<DefaultNumericTypes>(CANARY_SOURCE) {
+        Ok(_) => CANARY_PARSED_BEFORE.store(true, std::sync::atomic::Ordering::Relaxed),
+        Err(e) => {
+            if CANARY_PARSED_BEFORE.load(std::sync::atomic::Ordering::Relaxed) {
+                return Ok(RunOutcome {
+                    finding: Some(CFinding {
+                        class: "tree-build-depends-on-process-history".into(),
+                        thread: 0,
+                        op: 0,
+                        expected: format!("build_operator_tree({:?}) succeeds on the main thread, as it did before", CANARY_SOURCE),
+                        actual: format!("Err({})", ce(&e)),
+                    }),
+                    report: SimReport::default(),
+                });
+            }
+        },
+    }
     let sh = Arc::new(build_shared(w)?);
-    let (expected, expected_probes) = if w.fresh {
-        let reference = build_shared(w)?;
-        sequential_with_contexts(w, &reference)
+    // trees built (cloned) on this thread and handed to a simulated thread, which drops them
+    let mut disposable: Option<Vec<Node>> = Some(sh.trees.clone());
+    let cold = w.fresh && w.cold;
+    let reference = if w.fresh { Some(build_shared(w)?) } else { None };
+    let (mut expected, mut expected_probes) = if cold {
+        (Vec::new(), Vec::new())
     } else {
-        sequential_with_contexts(w, &sh)
+        sequential_with_contexts(w, reference.as_ref().unwrap_or(&sh))
     };
     let built: Arc<Vec<std::sync::Mutex<Vec<Ctx>>>> =
         Arc::new((0..w.threads.len()).map(|_| std::sync::Mutex::new(Vec::new())).collect());
@@ -701,7 +732,9 @@ pub fn run(w: &Workload, cfg: sched::SimConfig) -> Result<RunOutcome, String> {
         let results = results.clone();
         let built = built.clone();
         let slot = teardown_slots[i].clone();
+        let handed_over = if i == 0 { disposable.take() } else { None };
         bodies.push(Box::new(move || {
+            drop(handed_over);
             // registered before this thread evaluates anything: thread-local destructors run in
             // reverse registration order, so the probe's evaluation happens after the library's
             // own thread-locals (if it has any) are gone
@@ -721,6 +754,12 @@ pub fn run(w: &Workload, cfg: sched::SimConfig) -> Result<RunOutcome, String> {
         }));
     }
     let report = sched::simulate(cfg, bodies);
+    if cold && !report.deadlock {
+        // baseline after the concurrent phase, on the independently built copy
+        let (e, p) = sequential_with_contexts(w, reference.as_ref().unwrap_or(&sh));
+        expected = e;
+        expected_probes = p;
+    }
     let mut finding = None;
     if let Some((t, msg)) = report.panics.first() {
         let done = results[*t].lock().unwrap().len();
@@ -728,7 +767,7 @@ pub fn run(w: &Workload, cfg: sched::SimConfig) -> Result<RunOutcome, String> {
             class: "panic".into(),
             thread: *t,
             op: done,
-            expected: expected[*t].get(done).cloned().unwrap_or_default(),
+            expected: expected.get(*t).and_then(|e| e.get(done)).cloned().unwrap_or_default(),
             actual: format!("PANIC: {}", msg),
         });
     }
@@ -892,6 +931,7 @@ pub fn miri_workload(seed: u64) -> Workload {
         threads: vec![],
         extra_tree_sources: vec![],
         fresh: true,
+        cold: false,
     };
     let n_threads = rng.range(2, 3);
     match family {
@@ -1104,7 +1144,8 @@ pub fn miri_scenario(seed: u64) -> i32 {
 }
 
 fn gen_very_deep_tree(rng: &mut Rng, setup: &Setup) -> Expr {
-    let depth = rng.range(150, 320);
+    // (a third of them beyond a thousand levels once the parenthesis wrappers are counted)
+    let depth = if rng.percent(30) { rng.range(550, 700) } else { rng.range(150, 320) };
     let cfg = GenCfg {
         budget: depth * 5 / 2 + rng.range(5, 30),
         max_depth: depth,
@@ -1160,6 +1201,10 @@ pub fn gen_workload_sized(rng: &mut Rng, small: bool) -> Workload {
     if rng.percent(15) {
         sources.push("q(1) + len(\"ab\")".to_string());
     }
+    if rng.percent(40) {
+        // a function name nobody has ever seen before (registries keyed by name get a new entry)
+        sources.push(format!("u{:012x}(1) + 1", rng.next_u64() & 0xffff_ffff_ffff));
+    }
     let mut scripts = Vec::new();
     for _ in 0..rng.range(2, 5) {
         let deep = !small && rng.percent(20);
@@ -1195,6 +1240,7 @@ pub fn gen_workload_sized(rng: &mut Rng, small: bool) -> Workload {
                 .collect(),
             extra_tree_sources: Vec::new(),
             fresh: false,
+            cold: false,
         };
     }
     let n_threads = if many_threads { rng.range(5, 8) } else { rng.range(2, 4) };
@@ -1239,6 +1285,7 @@ pub fn gen_workload_sized(rng: &mut Rng, small: bool) -> Workload {
         }
         threads.push(ops);
     }
+    let fresh = rng.percent(50);
     Workload {
         trees,
         assembled,
@@ -1248,7 +1295,8 @@ pub fn gen_workload_sized(rng: &mut Rng, small: bool) -> Workload {
         values,
         threads,
         extra_tree_sources: Vec::new(),
-        fresh: rng.percent(50),
+        fresh,
+        cold: fresh && rng.percent(50),
     }
 }
 
